@@ -311,8 +311,14 @@ def finish(prop, tier, seed, level, reports, t0, assumptions, race_is_violation=
         "wall_s": round(time.time() - t0, 2),
         "violations": len(unlisted),
     }
-    os.makedirs(os.path.join(VERIF, "evidence"), exist_ok=True)
-    evp = os.path.join(VERIF, "evidence", "%s.json" % prop)
+    # evidence/ describes /repo; a run against another tree (VERIF_REPO: seeded
+    # changes, reverted repairs) leaves it alone
+    evdir = os.path.join(VERIF, "evidence")
+    if os.path.realpath(REPO) != "/repo":
+        import tempfile
+        evdir = os.path.join(tempfile.gettempdir(), "verif-evidence-of-other-trees")
+    os.makedirs(evdir, exist_ok=True)
+    evp = os.path.join(evdir, "%s.json" % prop)
     with open(evp + ".tmp", "w") as fh:
         json.dump(ev, fh, indent=1, default=str)
     os.replace(evp + ".tmp", evp)
